@@ -739,7 +739,10 @@ func (p *Process) ceaseFlowMonitor(tracer tracing.ITracer) func(ctx context.Cont
 // WaitUntilComplete waits until the instance is complete.
 // Returns true if the instance was complete, false if the context signaled `Done`
 func (p *Process) WaitUntilComplete(ctx context.Context) (complete bool) {
-	signal := make(chan bool)
+	// buffered: the helper must be able to signal and release the lock even
+	// when the caller has already given up (context expired), otherwise it
+	// keeps the completion lock for ever and every later wait fails
+	signal := make(chan bool, 1)
 	go func() {
 		p.complete.Lock()
 		defer p.complete.Unlock()
